@@ -189,6 +189,22 @@ func init() {
 			has := strings.Contains(src(fd.Body), `.999999999Z0700`)
 			return fmt.Sprintf("/-- generated from %s func parseGeneralizedTime: does the layout carry upstream's optional fractional seconds? -/\ndef genTimeFraction : Bool := %v\n", a, has)
 		}},
+		{"anyDecodesBoolean", func() string {
+			fd := mustFunc(a, "parseField")
+			n := len(findStmts(fd, func(s ast.Stmt) bool {
+				cc, ok := s.(*ast.CaseClause)
+				if !ok {
+					return false
+				}
+				for _, e := range cc.List {
+					if src(e) == "TagBoolean" {
+						return true
+					}
+				}
+				return false
+			}))
+			return fmt.Sprintf("/-- generated from %s func parseField: does the interface{} branch have `case TagBoolean`? -/\ndef anyDecodesBoolean : Bool := %v\n", a, n > 0)
+		}},
 		{"isPrintable", retPredicate(a, "isPrintable", "b", "isPrintable", "(b : Nat) (asterisk ampersand : Bool)", map[string]string{"asterisk": "asterisk", "ampersand": "ampersand"})},
 		{"isNumeric", retPredicate(a, "isNumeric", "b", "isNumeric", "(b : Nat)", nil)},
 		{"iso8859Reject", loopReject(a, "couldBeISO8859_1", "iso8859Reject")},
